@@ -347,6 +347,7 @@ type op =
 | OInvalidate of n
 | OClear
 | OMultiGet of n list
+| OMultiGetAsync of n list
 | OMultiInsert of ((n * n) * n) list
 | OMultiRemove of n list
 | OMultiInvalidate of n list
@@ -468,8 +469,13 @@ val on_hit : policy -> cfg -> state -> n -> entry -> state
 
 val do_read : policy -> cfg -> bool -> state -> n -> state * n option
 
-val do_multiget :
-  policy -> cfg -> state -> n list -> (n * n) list -> state * (n * n) list
+val on_hit_direct : policy -> cfg -> state -> n -> entry -> state
+
+val do_read_direct : policy -> cfg -> state -> n -> state * n option
+
+val do_multiget_gen :
+  policy -> (state -> n -> state * n option) -> state -> n list -> (n * n)
+  list -> state * (n * n) list
 
 val computable : policy -> cfg -> state -> n -> entry option
 
